@@ -253,12 +253,16 @@ func TestInvFree(t *testing.T) {
 		}
 
 		// sequential preparation: some labelled keys and cache entries, so that the calls have work to do
-		for i, np := 0, 2+rng.Intn(4); i < np; i++ {
-			if rng.Intn(2) == 0 {
-				do(mk("AddLabels"))
-			} else {
-				do(mk("Put"))
+		for _, d := range dels {
+			for _, k := range keys {
+				if rng.Intn(2) == 0 {
+					do(invFreeOp{kind: "Put", d: d, k: k})
+				}
 			}
+		}
+
+		for i, np := 0, 1+rng.Intn(4); i < np; i++ {
+			do(mk("AddLabels"))
 		}
 
 		// concurrent phase
